@@ -2,15 +2,24 @@ import TplModel.Proofs.LoadOrder
 import TplModel.Proofs.FsParse
 /-! # The abstract walk `FP` instantiated with the concrete loader `EN` (helper lemmas for `Props/C19loader.lean`)
 
-`Sys/FsParse.lean` (namespace `FP`) abstracts "loading a file" to `Content` (did it fail; which `define` names).
+`Sys/FsParse.lean` (namespace `FP`) abstracts "loading a file" to `Content` (did scanning/parsing fail; which `define`s does
+the tree contain, `none` for one whose name fails to evaluate).
 `Html/Engine.lean` (namespace `EN`) loads source TEXT (`addFile`, `loadFiles`).  This file connects them:
 
 * `EN.loads`, `EN.fragNames` — whether a source compiles on its own and the fragment names it contributes; both are
   independent of the file name (`canon_any`, `canon_names`);
-* `FP.contentOf` — the `Content` of a source text; `FP.Src`, `FP.entriesOf`, `FP.visited` — a fault-free file tree of
-  source texts, the entries the walk delivers for it, and the (path, source) list handed to `EN.loadFiles`;
+* `EN.defNameOf`, `EN.defSeq`, `EN.upToNone` — the `define`s of a tree in the pre-order of `EN.addDefined`, `none` for a name
+  that does not evaluate; `collect_defSeq` (it lists exactly the names `collect` returns, and has a `none` exactly when
+  `collect` fails), `defSeq_map` (independent of the numbering), `addDefined_clash` (a name clash in front of the first
+  failing name makes `addDefined` return `.err`, whatever follows);
+* `EN.parsed`, `EN.parses`, `EN.defsOf`, `EN.definedBy`, `EN.nameFails` — a source text in the two steps of `Add`: scan + tree
+  building, then the `define`s; `loads_iff_parses`, `fragNames_eq_definedBy`, `addFile_of_parsed`, `addFile_clash_err`;
+* `FP.contentOf` — the `Content` of a source text (`loadErr := ¬ parses`, `defines := defsOf`); `FP.Src`, `FP.entriesOf`,
+  `FP.visited` — a fault-free file tree of source texts, the entries the walk delivers for it, and the (path, source) list
+  handed to `EN.loadFiles`;
 * `FP.Sim s m` — the FP registry and the EN manager list the same names (same order) and the same files;
 * `add_sim` / `walk_sim` — `FP.add`/`FP.walk` succeed iff `EN.addFile`/`EN.loadFrom` do, and `Sim` is preserved;
+  `add_err_kind`, `add_state` — the error kind and the leftover state of `FP.add` on the loader's notions;
 * `EN.addFile_okOrErr`, `EN.addFile_dup_err` — when the file compiles on its own, the only failure of `addFile` is `.err`
   (the duplicate-name error).
 
@@ -145,6 +154,185 @@ theorem addDefined_okOrErr (cfg : Cfg) (cx : Ctx) : ∀ (n : Node) (tpls new : L
       · exact Or.inl hk
       · exact Or.inr (by rw [hk, List.append_assoc])
 
+/-! ## the `define`s of a tree as `addDefinedTpl` meets them, a failing name included -/
+
+/-- the `define` of one node (`defOf`): nothing, `some name`, or `none` when its name does not evaluate -/
+def defNameOf (cfg : Cfg) (cx : Ctx) (d : NodeD) (kids : List Node) : List (Option String) :=
+  match defOf cfg cx d kids with
+  | .ok new => (names new).map some
+  | _ => [none]
+
+mutual
+/-- the `define`s of a tree in the pre-order of `addDefined`: `some name` for a name that evaluates, `none` for one
+    that does not (every one of them; `upToNone` cuts after the first) -/
+def defSeq (cfg : Cfg) (cx : Ctx) : Node → List (Option String)
+  | .mk d kids _ => defNameOf cfg cx d kids ++ defSeqL cfg cx kids
+def defSeqL (cfg : Cfg) (cx : Ctx) : List Node → List (Option String)
+  | [] => []
+  | k :: ks => defSeq cfg cx k ++ defSeqL cfg cx ks
+end
+
+/-- cut after the first failing name: `addDefinedTpl` returns there, nothing behind it is looked at -/
+def upToNone : List (Option String) → List (Option String)
+  | [] => []
+  | none :: _ => [none]
+  | some d :: ds => some d :: upToNone ds
+
+theorem definedNames_upToNone (l : List (Option String)) : FP.definedNames (upToNone l) = FP.definedNames l := by
+  induction l with
+  | nil => rfl
+  | cons d l ih => cases d <;> simp [upToNone, ih]
+
+theorem none_mem_upToNone (l : List (Option String)) : none ∈ upToNone l ↔ none ∈ l := by
+  induction l with
+  | nil => simp [upToNone]
+  | cons d l ih => cases d <;> simp [upToNone, ih]
+
+/-- nothing follows the first `none` -/
+theorem upToNone_idem (l : List (Option String)) : upToNone (upToNone l) = upToNone l := by
+  induction l with
+  | nil => rfl
+  | cons d l ih => cases d <;> simp [upToNone, ih]
+
+theorem LoadRes.app_not_ok {α : Type} {r1 r2 : LoadRes (List α)} (h : ∀ l, r1.app r2 ≠ .ok l) :
+    (∀ l, r1 ≠ .ok l) ∨ (∀ l, r2 ≠ .ok l) := by
+  cases r1 with
+  | ok l1 =>
+    cases r2 with
+    | ok l2 => exact absurd rfl (h (l1 ++ l2))
+    | err => exact Or.inr (fun _ h => by cases h)
+    | panic => exact Or.inr (fun _ h => by cases h)
+    | unsupported => exact Or.inr (fun _ h => by cases h)
+  | err => exact Or.inl (fun _ h => by cases h)
+  | panic => exact Or.inl (fun _ h => by cases h)
+  | unsupported => exact Or.inl (fun _ h => by cases h)
+
+theorem defNameOf_ok {cfg : Cfg} {cx : Ctx} {d : NodeD} {kids : List Node} {new : List (String × Node)}
+    (h : defOf cfg cx d kids = .ok new) : defNameOf cfg cx d kids = (names new).map some := by
+  simp [defNameOf, h]
+
+theorem defNameOf_not_ok {cfg : Cfg} {cx : Ctx} {d : NodeD} {kids : List Node}
+    (h : ∀ new, defOf cfg cx d kids ≠ .ok new) : defNameOf cfg cx d kids = [none] := by
+  unfold defNameOf
+  split
+  · rename_i new hn; exact absurd hn (h new)
+  · rfl
+
+/-- **`collect` and `defSeq`.** When every `define` name of the tree evaluates, `defSeq` lists the collected names; when
+    `collect` fails, `defSeq` contains a `none` -/
+theorem collect_defSeq (cfg : Cfg) (cx : Ctx) : ∀ n : Node,
+    (∀ new, collect cfg cx n = .ok new → defSeq cfg cx n = (names new).map some) ∧
+    ((∀ new, collect cfg cx n ≠ .ok new) → none ∈ defSeq cfg cx n) := by
+  refine RN.Spec.Node.induct (PL := fun ks =>
+    (∀ new, collectL cfg cx ks = .ok new → defSeqL cfg cx ks = (names new).map some) ∧
+    ((∀ new, collectL cfg cx ks ≠ .ok new) → none ∈ defSeqL cfg cx ks)) ?_ ?_ ?_
+  · intro d kids e ih
+    rw [collect, defSeq]
+    constructor
+    · intro new h
+      obtain ⟨new1, new2, h1, h2, rfl⟩ := LoadRes.app_ok.mp h
+      rw [defNameOf_ok h1, ih.1 new2 h2]
+      simp [names]
+    · intro h
+      rcases LoadRes.app_not_ok h with h1 | h2
+      · rw [defNameOf_not_ok h1]; simp
+      · exact List.mem_append_right _ (ih.2 h2)
+  · rw [collectL, defSeqL]
+    exact ⟨fun new h => by cases h; rfl, fun h => absurd rfl (h [])⟩
+  · intro k ks ih1 ih2
+    rw [collectL, defSeqL]
+    constructor
+    · intro new h
+      obtain ⟨new1, new2, h1, h2, rfl⟩ := LoadRes.app_ok.mp h
+      rw [ih1.1 new1 h1, ih2.1 new2 h2]
+      simp [names]
+    · intro h
+      rcases LoadRes.app_not_ok h with h1 | h2
+      · exact List.mem_append_left _ (ih1.2 h1)
+      · exact List.mem_append_right _ (ih2.2 h2)
+
+theorem collect_ok_iff (cfg : Cfg) (cx : Ctx) (n : Node) :
+    (∃ new, collect cfg cx n = .ok new) ↔ none ∉ defSeq cfg cx n := by
+  constructor
+  · rintro ⟨new, h⟩
+    rw [(collect_defSeq cfg cx n).1 new h]
+    simp
+  · intro h
+    apply Classical.byContradiction
+    intro hno
+    exact h ((collect_defSeq cfg cx n).2 (fun new hn => hno ⟨new, hn⟩))
+
+/-- every name evaluates and the names are fresh: `addDefined` registers exactly `definedNames (defSeq n)` -/
+theorem addDefined_ok_of (cfg : Cfg) (cx : Ctx) (n : Node) (tpls : List (String × Node))
+    (h1 : none ∉ defSeq cfg cx n) (h2 : Fresh (names tpls) (FP.definedNames (defSeq cfg cx n))) :
+    ∃ new, addDefined cfg cx n tpls = .ok (tpls ++ new) ∧ names new = FP.definedNames (defSeq cfg cx n) := by
+  obtain ⟨new, hc⟩ := (collect_ok_iff cfg cx n).mpr h1
+  have hs := (collect_defSeq cfg cx n).1 new hc
+  rw [hs, FP.definedNames_map_some] at h2 ⊢
+  exact ⟨new, (addDefined_iff cfg cx n tpls _).mpr ⟨new, hc, h2, rfl⟩, rfl⟩
+
+/-- `defSeq` does not depend on the numbering of the expressions and nodes -/
+theorem defNameOf_map (cfg : Cfg) (cx cx' : Ctx) (f g : Nat → Nat) (hg : g 0 = 0)
+    (hev : ∀ a sc, attrEvaluate cx' (mapAttr f a) sc = attrEvaluate cx a sc) (d : NodeD) (kids : List Node) :
+    defNameOf cfg cx' (mapD f g d) (kids.map (mapNode f g)) = defNameOf cfg cx d kids := by
+  unfold defNameOf
+  rw [defOf_map cfg cx cx' f g hg hev]
+  cases defOf cfg cx d kids <;> simp [LoadRes.map, names, mapEntry, Function.comp_def]
+
+theorem defSeq_map (cfg : Cfg) (cx cx' : Ctx) (f g : Nat → Nat) (hg : g 0 = 0)
+    (hev : ∀ a sc, attrEvaluate cx' (mapAttr f a) sc = attrEvaluate cx a sc) : ∀ n : Node,
+    defSeq cfg cx' (mapNode f g n) = defSeq cfg cx n := by
+  refine RN.Spec.Node.induct (PL := fun ks => defSeqL cfg cx' (ks.map (mapNode f g)) = defSeqL cfg cx ks) ?_ ?_ ?_
+  · intro d kids e ih
+    rw [mapNode_mk, defSeq, defSeq, defNameOf_map cfg cx cx' f g hg hev, ih]
+  · rfl
+  · intro k ks ih1 ih2
+    rw [List.map_cons, defSeqL, defSeqL, ih1, ih2]
+
+/-- **a name clash in front of the first failing name is `.err`**, whatever follows: `addDefined` meets the clash first -/
+theorem addDefined_clash (cfg : Cfg) (cx : Ctx) : ∀ (n : Node) (tpls : List (String × Node)),
+    ¬ Fresh (names tpls) (FP.definedNames (defSeq cfg cx n)) → addDefined cfg cx n tpls = .err := by
+  refine RN.Spec.Node.induct (PL := fun ks => ∀ tpls : List (String × Node),
+    ¬ Fresh (names tpls) (FP.definedNames (defSeqL cfg cx ks)) → addDefinedL cfg cx ks tpls = .err) ?_ ?_ ?_
+  · intro d kids e ih tpls h
+    rw [defSeq] at h
+    rw [addDefined]
+    by_cases hex : ∃ new1, defOf cfg cx d kids = .ok new1
+    · obtain ⟨new1, hdo⟩ := hex
+      rw [defNameOf_ok hdo, FP.definedNames_append_of_not_mem (by simp), FP.definedNames_map_some] at h
+      rcases defineHere_okOrErr cfg cx d kids tpls new1 hdo with hd | hd
+      · simp [hd]
+      · simp only [hd]
+        apply ih
+        have hfr : Fresh (names tpls) (names new1) := by
+          obtain ⟨new, h1, h2, _⟩ := (defineHere_iff cfg cx d kids tpls _).mp hd
+          rw [hdo] at h1; cases h1; exact h2
+        intro hf
+        apply h
+        rw [Fresh_append]
+        exact ⟨hfr, by simpa [names] using hf⟩
+    · rw [defNameOf_not_ok (fun new hn => hex ⟨new, hn⟩)] at h
+      simp [Fresh] at h
+  · intro tpls h
+    simp [defSeqL, Fresh] at h
+  · intro k ks ih1 ih2 tpls h
+    rw [defSeqL] at h
+    rw [addDefinedL]
+    by_cases hn : none ∈ defSeq cfg cx k
+    · rw [FP.definedNames_append_of_mem hn] at h
+      rw [ih1 tpls h]
+    · rw [FP.definedNames_append_of_not_mem hn, Fresh_append] at h
+      by_cases hf : Fresh (names tpls) (FP.definedNames (defSeq cfg cx k))
+      · obtain ⟨new, h1, h2⟩ := addDefined_ok_of cfg cx k tpls hn hf
+        simp only [h1]
+        apply ih2
+        intro hf2
+        apply h
+        refine ⟨hf, ?_⟩
+        rw [← h2]
+        simpa [names] using hf2
+      · rw [ih1 tpls hf]
+
 /-- a file that compiles on its own is added, or rejected with `.err`: never `.panic`, never `.unsupported` -/
 theorem addFile_okOrErr (cfg : Cfg) (fns : List (String × FnSpec)) (i : Nat) (name src : String) (m : Mgr)
     (h : loads cfg fns src = true) : (addFile cfg fns i name src m).OkOrErr := by
@@ -218,6 +406,155 @@ theorem addFile_names {cfg : Cfg} {fns : List (String × FnSpec)} {i : Nat} {nam
   rw [← (canon_names h1).2]
   simp [extend, names, mapEntry, Function.comp_def]
 
+/-! ## a source text in two steps: scan + tree building (`parsed`), then the `define`s (`defsOf`) -/
+
+def parsedOf (r : LoadRes Node × Tbl) : Option (Node × Tbl) :=
+  match r.1 with
+  | .ok root0 => some (annotate root0, r.2)
+  | _ => none
+
+/-- what `Add` does before it registers the file: scanning, compiling every `${…}`, tree building — on the empty
+    expression table with file index 0, as in `canon`.  No `define` name is evaluated here. -/
+def parsed (cfg : Cfg) (src : String) : Option (Node × Tbl) :=
+  match HS.scan (scanCfg cfg) src.toList with
+  | .ok toks => parsedOf (buildTreeS cfg 0 toks #[])
+  | .error _ => none
+
+/-- scanning and tree building succeed (`GetAllTokens`, `ParseTokens`) -/
+def parses (cfg : Cfg) (src : String) : Bool := (parsed cfg src).isSome
+
+/-- the `define`s of a source in the pre-order of `addDefinedTpl`: `some name` for each one whose name evaluates, `none` at
+    the first one whose name does not, and nothing behind it; `[]` when the source does not parse -/
+def defsOf (cfg : Cfg) (fns : List (String × FnSpec)) (src : String) : List (Option String) :=
+  match parsed cfg src with
+  | some p => upToNone (defSeq cfg ⟨p.2, fns⟩ p.1)
+  | none => []
+
+/-- the fragment names in front of the first failing `define` name (all fragment names if none fails) -/
+def definedBy (cfg : Cfg) (fns : List (String × FnSpec)) (src : String) : List String :=
+  FP.definedNames (defsOf cfg fns src)
+
+/-- some `define` name of the source fails to evaluate -/
+def nameFails (cfg : Cfg) (fns : List (String × FnSpec)) (src : String) : Bool := (defsOf cfg fns src).contains none
+
+theorem canon_of_parsed {cfg : Cfg} {fns : List (String × FnSpec)} {name src : String} {root : Node} {E : Tbl}
+    (h : parsed cfg src = some (root, E)) :
+    canon cfg fns name src = (collect cfg ⟨E, fns⟩ root).map fun new => ((name, root) :: new, E) := by
+  unfold parsed at h
+  unfold canon
+  cases hs : HS.scan (scanCfg cfg) src.toList with
+  | error e => simp [hs] at h
+  | ok toks =>
+    simp only [hs] at h ⊢
+    rcases hb : buildTreeS cfg 0 toks #[] with ⟨r0, E0⟩
+    rw [hb] at h
+    cases r0 <;> simp [parsedOf] at h
+    obtain ⟨rfl, rfl⟩ := h
+    simp [canonOf]
+
+theorem canon_of_not_parsed {cfg : Cfg} {fns : List (String × FnSpec)} {name src : String}
+    (h : parsed cfg src = none) : ∀ x, canon cfg fns name src ≠ .ok x := by
+  intro x hx
+  unfold parsed at h
+  unfold canon at hx
+  cases hs : HS.scan (scanCfg cfg) src.toList with
+  | error e => cases e <;> simp [hs] at hx
+  | ok toks =>
+    simp only [hs] at h hx
+    rcases hb : buildTreeS cfg 0 toks #[] with ⟨r0, E0⟩
+    rw [hb] at h hx
+    cases r0 <;> simp [parsedOf, canonOf] at h hx
+
+/-- `addFile` on a source that parses and whose name is free: the file is registered, then `addDefined` runs on the
+    renumbered tree -/
+theorem addFile_of_parsed (cfg : Cfg) (fns : List (String × FnSpec)) (i : Nat) (name src : String) (m : Mgr)
+    {root : Node} {E : Tbl} (hn : name ∉ names m.templates) (h : parsed cfg src = some (root, E)) :
+    addFile cfg fns i name src m =
+      withTemplates m name ⟨m.cx.exprs ++ E, fns⟩
+        (addDefined cfg ⟨m.cx.exprs ++ E, fns⟩ (mapNode (m.cx.exprs.size + ·) (gId (i * 100000)) root)
+          (m.templates ++ [(name, mapNode (m.cx.exprs.size + ·) (gId (i * 100000)) root)])) := by
+  unfold parsed at h
+  unfold addFile
+  rw [if_neg (fun hany => hn ((any_name _ _).mp hany))]
+  cases hs : HS.scan (scanCfg cfg) src.toList with
+  | error e => simp [hs] at h
+  | ok toks =>
+    simp only [hs] at h ⊢
+    rw [buildTreeS_shift]
+    rcases hb : buildTreeS cfg 0 toks #[] with ⟨r0, E0⟩
+    rw [hb] at h
+    cases r0 <;> simp [parsedOf] at h
+    obtain ⟨rfl, rfl⟩ := h
+    simp only [registerFile, shiftRes, LoadRes.map]
+    rw [annotate_mapNode]
+
+/-- **compiles on its own = parses and no `define` name fails** -/
+theorem loads_iff_parses (cfg : Cfg) (fns : List (String × FnSpec)) (src : String) :
+    loads cfg fns src = true ↔ parses cfg src = true ∧ nameFails cfg fns src = false := by
+  rw [loads_iff cfg fns "" src]
+  unfold parses nameFails defsOf
+  cases hp : parsed cfg src with
+  | none =>
+    simp only [Option.isSome_none, Bool.false_eq_true, false_and, iff_false]
+    rintro ⟨ents, E, h⟩
+    exact canon_of_not_parsed hp _ h
+  | some p =>
+    obtain ⟨root, E⟩ := p
+    rw [canon_of_parsed hp]
+    simp only [Option.isSome_some, true_and]
+    have hmem : (upToNone (defSeq cfg ⟨E, fns⟩ root)).contains none = false ↔ none ∉ defSeq cfg ⟨E, fns⟩ root := by
+      rw [← none_mem_upToNone]; simp
+    rw [hmem, ← collect_ok_iff]
+    constructor
+    · rintro ⟨ents, E', h⟩
+      obtain ⟨new, h1, _⟩ := LoadRes.map_ok.mp h
+      exact ⟨new, h1⟩
+    · rintro ⟨new, h1⟩
+      exact ⟨_, _, LoadRes.map_ok.mpr ⟨new, h1, rfl⟩⟩
+
+/-- on a source that compiles on its own the two notions of "its fragment names" coincide -/
+theorem fragNames_eq_definedBy {cfg : Cfg} {fns : List (String × FnSpec)} {src : String} (h : loads cfg fns src = true) :
+    fragNames cfg fns src = definedBy cfg fns src := by
+  have hp := ((loads_iff_parses cfg fns src).mp h).1
+  unfold parses at hp
+  cases hpp : parsed cfg src with
+  | none => simp [hpp] at hp
+  | some p =>
+    obtain ⟨root, E⟩ := p
+    obtain ⟨ents, E', hc⟩ := loads_canon h ""
+    have hc' := hc
+    rw [canon_of_parsed hpp] at hc'
+    obtain ⟨new, h1, h2⟩ := LoadRes.map_ok.mp hc'
+    cases h2
+    unfold fragNames definedBy defsOf
+    simp only [hc, hpp]
+    rw [definedNames_upToNone, (collect_defSeq cfg ⟨E, fns⟩ root).1 new h1, FP.definedNames_map_some]
+    rfl
+
+/-- **a name clash in front of the first failing `define` name = `.err`.** A file that parses and whose names — file name,
+    then the fragment names in document order as far as the first `define` whose name fails — are not all fresh is rejected
+    with `.err`, whatever comes behind the clash (generalises `addFile_dup_err` to sources that do not compile on their own) -/
+theorem addFile_clash_err (cfg : Cfg) (fns : List (String × FnSpec)) (i : Nat) (name src : String) (m : Mgr)
+    (h : parses cfg src = true) (hd : ¬ Fresh (names m.templates) (name :: definedBy cfg fns src)) :
+    addFile cfg fns i name src m = .err := by
+  by_cases hn : name ∈ names m.templates
+  · exact addFile_name_taken cfg fns i name src m hn
+  · unfold parses at h
+    cases hpp : parsed cfg src with
+    | none => simp [hpp] at h
+    | some p =>
+      obtain ⟨root, E⟩ := p
+      rw [addFile_of_parsed cfg fns i name src m hn hpp]
+      have hd' : ¬ Fresh (names m.templates ++ [name]) (definedBy cfg fns src) := fun hf => hd ⟨hn, hf⟩
+      have hdef : definedBy cfg fns src = FP.definedNames (defSeq cfg ⟨E, fns⟩ root) := by
+        unfold definedBy defsOf
+        simp only [hpp]
+        exact definedNames_upToNone _
+      rw [addDefined_clash cfg ⟨m.cx.exprs ++ E, fns⟩ _ _ ?_]
+      · rfl
+      · rw [defSeq_map cfg ⟨E, fns⟩ _ _ _ rfl (attrEvaluate_shift fns m.cx.exprs E), ← hdef]
+        simpa [names] using hd'
+
 /-! ## `loadFrom` over a concatenation -/
 
 theorem loadFrom_append_ok (cfg : Cfg) (fns : List (String × FnSpec)) : ∀ (a b : List (String × String)) (i : Nat) (m m1 : Mgr),
@@ -254,20 +591,26 @@ open EN (Fresh names)
 
 /-! ## `addDefines` is `Fresh` -/
 
-theorem addDefines_ok_iff_fresh (s : State) (ds : List String) :
-    (addDefines s ds).1 = .ok ↔ Fresh s.templates ds := by
-  induction ds generalizing s with
-  | nil => simp [addDefines, Fresh]
-  | cons d ds ih =>
-    unfold addDefines
-    split
-    · rename_i h; simp [Fresh, h]
-    · rename_i h
-      rw [ih]
-      simp [Fresh, h]
+theorem addDefines_ok_iff_fresh (s : State) (ds : List (Option String)) :
+    (addDefines s ds).1 = .ok ↔ ds.contains none = false ∧ Fresh s.templates (definedNames ds) := by
+  rw [addDefines_ok_iff, EN.Fresh_iff]
+
+theorem addDefines_load_iff_fresh (s : State) (ds : List (Option String)) :
+    (addDefines s ds).1 = .err .load ↔ ds.contains none = true ∧ Fresh s.templates (definedNames ds) := by
+  rw [addDefines_load_iff, EN.Fresh_iff]
+
+theorem addDefines_dup_iff_fresh (s : State) (ds : List (Option String)) :
+    (addDefines s ds).1 = .err .duplicate ↔ ¬ Fresh s.templates (definedNames ds) := by
+  rw [EN.Fresh_iff, addDefines_fst]
+  by_cases hP : (definedNames ds).Nodup ∧ ∀ d ∈ definedNames ds, d ∉ s.templates
+  · rw [if_pos hP]
+    cases ds.contains none <;> simp [hP.1] <;> exact hP.2
+  · rw [if_neg hP]
+    simp only [true_iff]
+    exact hP
 
 theorem add_ok_iff_fresh (s : State) (n : String) (c : Content) :
-    (add s n c).1 = .ok ↔ c.loadErr = false ∧ Fresh s.templates (n :: c.defines) := by
+    (add s n c).1 = .ok ↔ c.loadErr = false ∧ c.nameErr = false ∧ Fresh s.templates (n :: definedNames c.defines) := by
   unfold add
   split
   · rename_i h; simp [Fresh, h]
@@ -276,24 +619,28 @@ theorem add_ok_iff_fresh (s : State) (n : String) (c : Content) :
     · rename_i hl; simp [hl]
     · rename_i hl
       rw [addDefines_ok_iff_fresh]
-      simp [Fresh, h, hl]
+      simp [Fresh, h, hl, Content.nameErr]
 
 /-! ## what `add` leaves registered, in every outcome -/
 
-/-- the fragments `addDefines` registers on top of `base`: up to, not including, the first name that is taken -/
+/-- the fragments `addDefines` registers on top of `base`, given the names in front of the first failing one: up to, not
+    including, the first name that is taken -/
 def regPrefix (base : List String) : List String → List String
   | [] => []
   | d :: ds => if d ∈ base then [] else d :: regPrefix (base ++ [d]) ds
 
-theorem addDefines_templates_eq (s : State) (ds : List String) :
-    (addDefines s ds).2.templates = s.templates ++ regPrefix s.templates ds := by
+theorem addDefines_templates_eq (s : State) (ds : List (Option String)) :
+    (addDefines s ds).2.templates = s.templates ++ regPrefix s.templates (definedNames ds) := by
   induction ds generalizing s with
   | nil => simp [addDefines, regPrefix]
   | cons d ds ih =>
-    unfold addDefines regPrefix
-    split
-    · simp
-    · rw [ih]; simp
+    cases d with
+    | none => simp [addDefines, regPrefix]
+    | some d =>
+      rw [addDefines, definedNames_some, regPrefix]
+      split
+      · simp
+      · rw [ih]; simp
 
 theorem regPrefix_of_fresh {base ds : List String} (h : Fresh base ds) : regPrefix base ds = ds := by
   induction ds generalizing base with
@@ -312,10 +659,12 @@ theorem regPrefix_prefix (base ds : List String) : regPrefix base ds <+: ds := b
     · exact (List.prefix_cons_inj d).mpr (ih _)
 
 /-- the state after `Add`, in EVERY outcome: nothing new when the name is taken or the file does not load; otherwise the
-    file and the fragments up to the first taken name; the logs are untouched -/
+    file and — of the fragments in front of the first failing `define` name — those up to the first taken name (all of them
+    when the failure is that failing name); the logs are untouched -/
 theorem add_state (s : State) (n : String) (c : Content) :
     (add s n c).2.templates = s.templates ++
-      (if n ∈ s.templates ∨ c.loadErr = true then [] else n :: regPrefix (s.templates ++ [n]) c.defines) ∧
+      (if n ∈ s.templates ∨ c.loadErr = true then []
+       else n :: regPrefix (s.templates ++ [n]) (definedNames c.defines)) ∧
     (add s n c).2.files = s.files ++ (if n ∈ s.templates ∨ c.loadErr = true then [] else [n]) ∧
     (add s n c).2.opens = s.opens ∧ (add s n c).2.closes = s.closes := by
   refine ⟨?_, ?_, (add_frame s n c).1, (add_frame s n c).2⟩
@@ -336,11 +685,24 @@ theorem add_state (s : State) (n : String) (c : Content) :
 
 /-! ## the instantiation -/
 
-/-- **the `Content` of a source text**, computed by the concrete loader: it fails to load iff it does not compile on its
-    own (`EN.canon`), its `define` names are the fragment names the loader registers for it.  Neither depends on the name
-    of the file (`EN.canon_any`). -/
+/-- **the `Content` of a source text**, computed by the concrete loader: `loadErr` iff scanning or tree building fails
+    (`EN.parses`: what `Add` does BEFORE it registers the file); `defines` are the `define`s in the pre-order of
+    `EN.addDefined`, `some name` for each name that evaluates and `none` at the first one that does not (`EN.defsOf`: what
+    `addDefinedTpl` meets AFTER the file was registered).  Neither depends on the name of the file. -/
 def contentOf (cfg : EN.Cfg) (fns : List (String × EV.FnSpec)) (src : String) : Content :=
-  { loadErr := !EN.loads cfg fns src, defines := EN.fragNames cfg fns src }
+  { loadErr := !EN.parses cfg src, defines := EN.defsOf cfg fns src }
+
+theorem contentOf_nameErr (cfg : EN.Cfg) (fns : List (String × EV.FnSpec)) (src : String) :
+    (contentOf cfg fns src).nameErr = EN.nameFails cfg fns src := rfl
+
+theorem contentOf_names (cfg : EN.Cfg) (fns : List (String × EV.FnSpec)) (src : String) :
+    definedNames (contentOf cfg fns src).defines = EN.definedBy cfg fns src := rfl
+
+/-- the content says "no fault" exactly when the source compiles on its own -/
+theorem contentOf_clean_iff (cfg : EN.Cfg) (fns : List (String × EV.FnSpec)) (src : String) :
+    ((contentOf cfg fns src).loadErr = false ∧ (contentOf cfg fns src).nameErr = false) ↔ EN.loads cfg fns src = true := by
+  rw [EN.loads_iff_parses, contentOf_nameErr]
+  simp [contentOf]
 
 /-- a fault-free file tree of source texts, as the walk meets it: directories and files with their text -/
 structure Src where
@@ -384,28 +746,30 @@ theorem acceptedPaths_entriesOf (cfg : EN.Cfg) (fns : List (String × EV.FnSpec)
     rw [entriesOf, List.map_cons, acceptedPaths_cons, visited_cons, ← entriesOf, ih, entryOf_accepted]
     cases (!x.isDir && mt x.path) <;> simp [entryOf]
 
-/-- the names requested by the entries: each visited file's path followed by its fragment names -/
+/-- the names requested by the entries: each visited file's path followed by its fragment names (those in front of the
+    first failing `define` name) -/
 theorem allNames_entriesOf (cfg : EN.Cfg) (fns : List (String × EV.FnSpec)) (mt : String → Bool) (xs : List Src) :
-    allNames mt (entriesOf cfg fns xs) = (visited mt xs).flatMap fun f => f.1 :: EN.fragNames cfg fns f.2 := by
+    allNames mt (entriesOf cfg fns xs) = (visited mt xs).flatMap fun f => f.1 :: EN.definedBy cfg fns f.2 := by
   induction xs with
   | nil => rfl
   | cons x xs ih =>
     rw [entriesOf, List.map_cons, allNames_cons, visited_cons, ← entriesOf, ih, entryOf_accepted]
-    cases (!x.isDir && mt x.path) <;> simp [entryOf, Entry.names, contentOf]
+    cases (!x.isDir && mt x.path) <;> simp [entryOf, Entry.names, contentOf_names]
 
-/-- the entries built from a source tree carry no file-system fault; the only fault left is a file that does not compile -/
+/-- the entries built from a source tree carry no file-system fault; the only fault left is a file that does not compile on
+    its own (it does not parse, or the name of one of its `define`s does not evaluate) -/
 theorem noFsFault_entriesOf (cfg : EN.Cfg) (fns : List (String × EV.FnSpec)) (mt : String → Bool) (xs : List Src) :
     NoFsFault mt (entriesOf cfg fns xs) ↔ ∀ f ∈ visited mt xs, EN.loads cfg fns f.2 = true := by
   simp only [NoFsFault, entriesOf, visited, List.mem_map, List.mem_filter]
   constructor
   · rintro h f ⟨x, ⟨hx, ha⟩, rfl⟩
     have := (h _ ⟨x, hx, rfl⟩).2 (by rw [entryOf_accepted]; exact ha)
-    simpa [entryOf, contentOf] using this.2
+    exact (contentOf_clean_iff cfg fns x.src).mp this.2
   · rintro h e ⟨x, hx, rfl⟩
     refine ⟨rfl, fun ha => ⟨rfl, ?_⟩⟩
     rw [entryOf_accepted] at ha
     have := h (x.path, x.src) ⟨x, ⟨hx, ha⟩, rfl⟩
-    simp [entryOf, contentOf, this]
+    exact (contentOf_clean_iff cfg fns x.src).mpr this
 
 /-! ## the simulation -/
 
@@ -421,41 +785,47 @@ theorem add_sim (cfg : EN.Cfg) (fns : List (String × EV.FnSpec)) (i : Nat) (nam
     ((add s name (contentOf cfg fns src)).1 = .ok ↔ ∃ m1, EN.addFile cfg fns i name src m = .ok m1) ∧
     ∀ m1, EN.addFile cfg fns i name src m = .ok m1 → Sim (add s name (contentOf cfg fns src)).2 m1 := by
   have hiff : (add s name (contentOf cfg fns src)).1 = .ok ↔ ∃ m1, EN.addFile cfg fns i name src m = .ok m1 := by
-    rw [add_ok_iff_fresh, EN.addFile_ok_names, h.1]
-    simp [contentOf]
+    rw [add_ok_iff_fresh, EN.addFile_ok_names, h.1, ← and_assoc, contentOf_clean_iff, contentOf_names]
+    constructor
+    · rintro ⟨hl, hf⟩; exact ⟨hl, EN.fragNames_eq_definedBy hl ▸ hf⟩
+    · rintro ⟨hl, hf⟩; exact ⟨hl, EN.fragNames_eq_definedBy hl ▸ hf⟩
   refine ⟨hiff, fun m1 hm1 => ?_⟩
   have hok := hiff.mpr ⟨m1, hm1⟩
   obtain ⟨h1, h2⟩ := add_ok s name _ hok
   obtain ⟨h3, h4⟩ := EN.addFile_names hm1
-  exact ⟨by rw [h2, h3, h.1]; rfl, by rw [h1, h4, h.2]⟩
+  have hl := (EN.addFile_ok_names cfg fns i name src m).mp ⟨m1, hm1⟩
+  exact ⟨by rw [h2, h3, h.1, contentOf_names, EN.fragNames_eq_definedBy hl.1], by rw [h1, h4, h.2]⟩
 
-/-- the result of `add` when it fails, on the loader's notions: `duplicate` iff the file name is taken, or the file
-    compiles on its own and one of its fragment names is taken (by an earlier file, an earlier fragment, the file itself);
-    `load` iff the name is free and the file does not compile -/
+/-- the result of `add` when it fails, on the loader's notions, in the order in which `Add` meets the conditions:
+    `duplicate` when the file name is taken; else `load` when the text does not parse; else `duplicate` when one of the
+    fragment names in front of the first failing `define` name is taken (by an earlier file, an earlier fragment, the file
+    itself); else `load` when a `define` name fails to evaluate; else success -/
 theorem add_err_kind (cfg : EN.Cfg) (fns : List (String × EV.FnSpec)) (name src : String) (s : State) :
     (add s name (contentOf cfg fns src)).1 =
       if name ∈ s.templates then .err .duplicate
-      else if EN.loads cfg fns src = false then .err .load
-      else if Fresh s.templates (name :: EN.fragNames cfg fns src) then .ok else .err .duplicate := by
+      else if EN.parses cfg src = false then .err .load
+      else if Fresh s.templates (name :: EN.definedBy cfg fns src) then
+        (if EN.nameFails cfg fns src then .err .load else .ok)
+      else .err .duplicate := by
   by_cases h1 : name ∈ s.templates
   · simp [add, h1]
-  · by_cases h2 : EN.loads cfg fns src = false
+  · by_cases h2 : EN.parses cfg src = false
     · simp [add, h1, contentOf, h2]
     · rw [if_neg h1, if_neg h2]
       have hl : (contentOf cfg fns src).loadErr = false := by simpa [contentOf] using h2
-      by_cases h3 : Fresh s.templates (name :: EN.fragNames cfg fns src)
+      have hfr : Fresh s.templates (name :: EN.definedBy cfg fns src) ↔
+          Fresh (s.templates ++ [name]) (definedNames (contentOf cfg fns src).defines) := by
+        rw [contentOf_names]; simp [Fresh, h1]
+      unfold add
+      rw [if_neg h1, hl]
+      simp only [Bool.false_eq_true, if_false]
+      by_cases h3 : Fresh s.templates (name :: EN.definedBy cfg fns src)
       · rw [if_pos h3]
-        exact (add_ok_iff_fresh s name _).mpr ⟨hl, h3⟩
+        cases hnf : EN.nameFails cfg fns src
+        · exact (addDefines_ok_iff_fresh _ _).mpr ⟨hnf, hfr.mp h3⟩
+        · exact (addDefines_load_iff_fresh _ _).mpr ⟨hnf, hfr.mp h3⟩
       · rw [if_neg h3]
-        have hne : (add s name (contentOf cfg fns src)).1 ≠ .ok :=
-          fun hok => h3 ((add_ok_iff_fresh s name _).mp hok).2
-        unfold add at hne ⊢
-        rw [if_neg h1, hl] at hne ⊢
-        simp only [Bool.false_eq_true, if_false] at hne ⊢
-        rcases addDefines_result { s with files := s.files ++ [name], templates := s.templates ++ [name] }
-          (contentOf cfg fns src).defines with hr | hr
-        · exact absurd hr hne
-        · exact hr
+        exact (addDefines_dup_iff_fresh _ _).mpr (fun hf => h3 (hfr.mpr hf))
 
 theorem visit_entryOf (cfg : EN.Cfg) (fns : List (String × EV.FnSpec)) (mt : String → Bool) (s : State) (x : Src) :
     visit mt s (entryOf cfg fns x) =
